@@ -191,6 +191,32 @@ def check(run):
         allraces += races(se)
         m = re.search(r"published=(\d+) acked=(\d+) connections=(\d+)", se)
         stress_stats.append(dict(zip(("published", "acked", "connections"), map(int, m.groups()))) if m else {})
+    # ---- round 8: the set-up workers authenticate CONNECTs in parallel on ONE handler, and what it hands out becomes the session's
+    # identifier: a storm of Authenticate calls under the race detector; AuthTrace.tla requires every outcome to be the table's and the
+    # identifiers handed out to admitted clients to be pairwise different (two equal ones would be one session)
+    adrv = run.gobuild("authdrv", race=True)
+    users = ["alice", "bob", "carol", "dave", "erin"]
+    table = [{"u": u, "p": "pw-" + u, "m": ("tenant-" + u[0]) if i % 2 else ""} for i, u in enumerate(users)]
+    qs = [{"u": u, "p": "pw-" + u} for u in users] + [{"u": "alice", "p": "wrong"}, {"u": "mallory", "p": "x"}]
+    ascn = [{"kind": "file", "table": table, "order": list(range(len(table))), "queries": qs, "storm": 16, "rounds": 60 if not thorough else 400},
+            {"kind": "static", "table": [{"u": "admin", "p": "secret", "m": ""}], "order": [0],
+             "queries": [{"u": "admin", "p": "secret"}, {"u": "admin", "p": "secret"}, {"u": "admin", "p": "wrong"}], "storm": 16, "rounds": 120 if not thorough else 800}]
+    aspath = os.path.join(run.scratch, "auth-scn.ndjson")
+    with open(aspath, "w") as f:
+        for a in ascn:
+            f.write(json.dumps(a) + "\n")
+    atpath = os.path.join(run.scratch, "authstorm.ndjson")
+    ap = subprocess.run([adrv, "-scenarios", aspath, "-out", atpath], stdout=subprocess.PIPE, stderr=subprocess.PIPE, text=True, env=env, cwd=run.scratch, timeout=1200)
+    if ap.returncode not in (0, 66):
+        raise vlib.Inconclusive("auth driver exited %d: %s" % (ap.returncode, ap.stderr[-2000:]))
+    allraces += races(ap.stderr)
+    aval, arej, ats = vlib.validate_scenarios(run, "AuthTrace", "AuthTrace.cfg", atpath, timeout=1200, max_rejections=2)
+    for rj in arej:
+        e = rj["scenario"][rj["line"] - 1]
+        v.add("authstorm:" + ("identifiers-not-distinct" if e.get("op") == "ids" else "panic" if e.get("panic") else "wrong-outcome"),
+              "concurrent Authenticate calls on one handler: %s is not what the credentials table implies / not pairwise different identifiers" % json.dumps(e),
+              {"kind": "authstorm", "scenario": ascn, "event": e})
+    run.log("authentication storm: %d scenarios validated, %d rejected" % (aval, len(arej)))
     run.log("%d concurrent histories, %d stress runs %s, %d race reports" % (nhist, nstress, stress_stats, len(allraces)))
     for where, text in panics:
         v.add("stress:broker-panic:" + where, "the broker panicked under concurrent client load: %s" % text, {"kind": "stress-panic", "report": text})
